@@ -47,9 +47,14 @@ Reading of the failed-trial contract (decides the oracle)
     duplicate and stops), so every non-final optimize call is cut BEFORE exhaustion and a
     KeyboardInterrupt is never placed in the last evaluation. NOT exercised: a failure that is not
     a function of the parameter prefix at an INNER node (e.g. KeyboardInterrupt between two
-    suggests): the FAIL trial then marks an inner node as a leaf and the next trial through it gets
-    "ValueError: param_name mismatch" - covered by the class docstring note ("may fail to try the
-    entire search space when the suggestion ranges or parameters are changed in the same study").
+    suggests): the FAIL trial's parameter path then ends at a node where other trials go on; the
+    sampler either skips the subtree below it or raises "ValueError: param_name mismatch" (also
+    from after_trial, replacing the KeyboardInterrupt, and from every later optimize call). That is
+    the contract for a study that holds trials with a prefix / an extension of another trial's
+    parameters: class docstring note ("may fail to try the entire search space when the suggestion
+    ranges or parameters are changed in the same study") and upstream
+    test_study_optimize_with_nonconstant_search_space (pytest.raises(ValueError)). Probed by hand
+    (2x2 program, interrupt between the two suggests), mentioned in the report, never an alarm.
 
     Stale RUNNING trial (a worker that was killed: the strongest form of "interrupted and
     resumed"; the only sequential situation in which avoid_premature_stop matters):
@@ -61,40 +66,64 @@ Reading of the failed-trial contract (decides the oracle)
 
 Grids (GridSampler)
     all shapes (n_1..n_k), k <= 3, n_i in 1..3 (39 shapes, up to 27 cells) x 8 value themes that
-    rotate a pool [None, True, nan, 0.5, "a", False, 2, ""] through every position (all-numeric
-    lists incl. nan are suggested with suggest_float, the others with suggest_categorical), plus the
-    empty grid {} (one cell, no parameter). Pre-existing non-grid trials: 1 or 2 COMPLETE trials
-    added with study.add_trial whose params EQUAL a grid cell (no grid_id: must not be counted, the
-    cell is still evaluated), an enqueued trial (all parameters given) before the first call, or
-    enqueued before the last call. An enqueued trial is evaluated by optimize (expected multiset =
-    cells + the enqueued combination).
+    rotate a pool [None, True, nan, 0.5, "a", False, 2, ""] through every position, plus the empty
+    grid {} (one cell, no parameter). Lists of plain numbers are suggested with suggest_float, all
+    others (None / bool / str / nan) with suggest_categorical over the list (nan under
+    suggest_float is rejected by FloatDistribution itself). Pre-existing non-grid trials: 1 or 2
+    COMPLETE trials added with study.add_trial whose params EQUAL a grid cell (no grid_id: must not
+    be counted, the cell is still evaluated), an enqueued trial (all parameters given, as the
+    GridSampler docstring requires) before the first call, or enqueued before the last call. An
+    enqueued trial is evaluated by optimize (expected multiset = cells + the enqueued combination).
+    Failed / pruned / interrupted cells are visited (see above). A deterministic raise before
+    suggesting parameter k: every cell is still visited once; observed and compared is the
+    projection of the cells on the first k parameters.
 
-Variant plans (all enumerated, see plan_bf / plan_grid; sizes are reported in the evidence)
+Variant plans (see plan_bf / plan_grid for the exact products; every listed combination is run)
     seed {0,1,2} x failure {none | evaluation i in {0,1,2} raises a caught exception after its
     suggests | evaluation i is pruned after its suggests | deterministic raise (caught exception or
-    TrialPruned) at an inner node} x schedule {1, 2 or 3 optimize calls; every cut position
-    enumerated; a cut is either n_trials running out or a KeyboardInterrupt in the evaluation just
-    before the cut (at most one per run)} x avoid_premature_stop {F,T}; stale RUNNING trials at
-    every node for both values of avoid_premature_stop. JournalStorage over a file in /dev/shm for
-    a subset, with a NEW storage + study + sampler object (same seed) for every resumed call.
+    TrialPruned) at an inner node} x schedule {1, 2 or 3 optimize calls; cut positions enumerated;
+    a cut is either n_trials running out or a KeyboardInterrupt in the evaluation just before the
+    cut (at most one per run)} x avoid_premature_stop {F,T}; stale RUNNING trials at every node.
+    The full cross product is affordable only on the smallest axis values, so the plans take the
+    full product on the axes that interact (failure pattern x schedule for seed 0) and a reduced
+    product elsewhere; the plan docstrings say exactly what. JournalStorage over a file in /dev/shm
+    for a subset, with a NEW storage + study + sampler object (same seed) for every resumed call.
     The caught exception is a private Exception subclass (optimize(catch=(Planned,))) rather than
     ValueError so that a ValueError raised by the sampler itself is never swallowed as "a failing
     trial".
 
-Mutations of optuna this check must catch (verified on a scratch copy, see the final report):
+Finding on the unmodified tree (reported as VIOLATION until recorded in known_findings.json)
+    grid|optimize-raised:KeyError|pre=enq-start / pre=enq-last: GridSampler.after_trial reads
+    system_attrs["grid_id"] of the finished trial when exactly one grid cell is unvisited; an
+    enqueued trial (fixed_params, documented as supported "with all parameters specified") has no
+    grid_id, so optimize() dies with KeyError('grid_id') and the last cell is never evaluated.
+    Minimal: GridSampler({"g0": [None]}), study.enqueue_trial({"g0": None}), study.optimize(f).
+
+Mutations of optuna this check must catch (each verified with VF_REPO=<scratch copy>, quick tier;
+the violation keys that appeared are given):
   M1  _brute_force.py  _TreeNode.count_unexpanded: `return 0 if self.is_running else 1` (running
-      leaves ignored also with avoid_premature_stop=True)        -> leaf-never-evaluated, pre=stale
-  M2  _brute_force.py  _populate_tree: `if trial.state == TrialState.COMPLETE: leaf.set_leaf()`
-      (failed / pruned points are forgotten and retried)         -> leaf-evaluated-twice
+      leaves ignored also with avoid_premature_stop=True)
+        -> bruteforce|leaf-never-evaluated|failure=none split=1 aps=T pre=stale storage=mem
+  M2  _brute_force.py  TrialState.FAIL dropped from the states fetched in sample_independent and
+      after_trial (failed points are forgotten and retried)
+        -> bruteforce|leaf-evaluated-twice|failure=fail ..., bruteforce|did-not-stop|failure=inner-fail ...
   M3  _brute_force.py  after_trial: `if tree.count_unexpanded(exclude_running) <= 1: study.stop()`
-      (off by one in the stop test)                              -> stopped-before-exhaustion /
-                                                                    leaf-never-evaluated
-  M4  _brute_force.py  sample_child: weights = 1 for every child (fully expanded children not
-      excluded)                                                  -> leaf-evaluated-twice
-  M5  _grid.py  _get_unvisited_grid_ids: `if t.state == TrialState.COMPLETE` for visited
-      (failed grid points retried)                               -> grid cell-evaluated-twice
-  M6  _grid.py  after_trial: stop only when `len(target_grids) == 0` (the RUNNING current trial
-      is never recognised as the last one)                       -> grid cell-evaluated-twice
+      (off by one in the stop test)
+        -> bruteforce|stopped-before-exhaustion|..., bruteforce|leaf-never-evaluated|...
+  M4  _brute_force.py  sample_child: weight 1 for every child (fully expanded children are not
+      excluded)
+        -> bruteforce|leaf-evaluated-twice|..., bruteforce|leaf-never-evaluated|..., bruteforce|did-not-stop|...
+  M5  _grid.py  _get_unvisited_grid_ids: `if t.state == TrialState.COMPLETE` for visited (failed
+      and pruned grid cells are retried)
+        -> grid|cell-evaluated-twice|failure=fail/prune ..., grid|did-not-stop|failure=inner-...
+  M6  _grid.py  after_trial: no stop when the finished (still RUNNING) trial holds the last
+      unvisited cell
+        -> grid|cell-evaluated-twice|...
+  M7  _grid.py  `self._n_min_trials = len(self._all_grids) - 1`
+        -> grid|cell-never-evaluated|..., grid|cell-evaluated-twice|...
+  Equivalent in sequential runs, hence NOT detectable here: _get_unvisited_grid_ids ignoring
+  RUNNING trials (the only RUNNING trial with a grid_id is the current one, and both variants
+  then agree on whether it is the last cell).
 """
 from __future__ import annotations
 
@@ -777,6 +806,8 @@ def plan_grid(shape: list, theme: int, level: str, storage: str = "mem") -> list
     lone_nan = any(all(isinstance(v, float) and math.isnan(v) for v in vals) for vals in grid_of(shape, theme).values())
 
     def add(seed: int, failure: list, cuts: list, pre: str) -> None:
+        if pre.startswith("enq") and not shape:
+            return  # nothing to enqueue for the empty grid
         if pre.startswith("enq") and lone_nan:
             # a fixed nan only matches a categorical choice by object identity, which an enqueued
             # value does not keep through a storage: not a sampler matter, not exercised
